@@ -1316,7 +1316,8 @@ class LiteralValue:
         self.fields = self.fields.copy()
 
     def promote(self):
-        return self.parents[0]
+        # A new instance each time: the class-level parent object is shared by the whole process
+        return self.parents[0].clone()
 
     def clone(self):
         return self.__class__(self.value)
